@@ -29,9 +29,24 @@ def rule_pointer_blind(ctx):
     recs, rows, dt, inv, sim = serial.rows_and_leaves()
     tu = cfront.load_tu('binarydiff.c')
     fn = tu.func('reb_binary_diff')
-    # branches selected by strcmp(<descriptor name>, "X")==0
+    # branches selected by strcmp(<descriptor name>, "X")==0 - in reb_binary_diff itself or in a helper of the same file
+    # that it reaches (a per-field comparison moved into its own function)
+    reach = ['reb_binary_diff']
+    seen_f = set()
+    bodies = []
+    while reach:
+        f_ = reach.pop()
+        if f_ in seen_f or f_ not in tu.funcs:
+            continue
+        seen_f.add(f_)
+        if cfront.basename(tu.funcs[f_].get('_locfile') or tu.funcs[f_].get('_file')) != 'binarydiff.c':
+            continue
+        bodies.append(cfront.body(tu.funcs[f_]))
+        for x in walk(cfront.body(tu.funcs[f_])):
+            if x.get('kind') == 'CallExpr' and callee_name(x) in tu.funcs:
+                reach.append(callee_name(x))
     branches = {}
-    for n in walk(cfront.body(fn)):
+    for n in (y for b_ in bodies for y in walk(b_)):
         if n.get('kind') == 'IfStmt':
             c = n['inner'][0]
             for x in walk(c):
@@ -119,30 +134,37 @@ def rule_accumulation(ctx, rule='R17.5'):
     for fname in ('reb_binary_diff', 'reb_particle_diff'):
         fn = tu.func(fname)
 
-        def scan(node, in_loop):
+        decl_depth = {}
+
+        def scan(node, depth):
             nonlocal n
             k = node.get('kind')
+            if k in ('VarDecl', 'ParmVarDecl') and node.get('name'):
+                decl_depth[node['name']] = depth
             if k in ('ForStmt', 'WhileStmt', 'DoStmt'):
                 for c in node.get('inner', []) or []:
                     if isinstance(c, dict):
-                        scan(c, True)
+                        scan(c, depth + 1)
                 return
             if is_assign(node):
                 lv = render(node['inner'][0])
-                if lv in ('fields_differ', 'are_different', 'differ'):
+                if lv in ('fields_differ', 'are_different', 'differ') or ('differ' in lv and strip(node['inner'][0]).get('kind') == 'DeclRefExpr'):
                     n += 1
                     rhs = render(node['inner'][1])
                     ok = node['opcode'] == '|=' or rhs in ('1', '1.0', '1.') or (lv in rhs)
                     if fname == 'reb_particle_diff':
                         ok = node['opcode'] == '|=' or (lv in rhs) or rhs in ('0',)
-                    if not ok and (in_loop or fname == 'reb_particle_diff'):
+                    # a plain assignment is an overwrite only inside a loop that is nested deeper than the flag's own declaration:
+                    # a flag declared (or first set) once per iteration of the loop it lives in starts afresh on purpose
+                    deeper = depth > decl_depth.get(lv, 0)
+                    if not ok and (deeper or fname == 'reb_particle_diff'):
                         ctx.report(rule, '%s:%s' % (fname, lv), 'src/binarydiff.c:%s %s' % (line_of(node), fname),
                                    '%s %s %s overwrites the difference flag instead of accumulating it: only the last element compared decides' % (lv, node['opcode'], rhs))
                     samples.append('src/binarydiff.c:%s %s %s %s' % (line_of(node), lv, node['opcode'], rhs[:40]))
             for c in node.get('inner', []) or []:
                 if isinstance(c, dict):
-                    scan(c, in_loop)
-        scan(cfront.body(fn), False)
+                    scan(c, depth)
+        scan(cfront.body(fn), 0)
     # both passes exist: fields of buf1 in buf2 and fields of buf2 missing in buf1
     fn = tu.func('reb_binary_diff')
     loops = [x for x in cfront.body(fn).get('inner', []) if x.get('kind') == 'WhileStmt']
